@@ -247,7 +247,9 @@ def check_spec(spec, meta, tier, index):
                     elif S == 'real':
                         bound = 10 * amp * run['tol']
                         msg = C.close_tensor(z, exp, 'float64', rtol=1e-9, atol=bound + 1e-12)
-                        if msg is None and C.zero_positions_differ(z, exp):
+                        # a truly zero entry can never become positive (iteration from below); the converse
+                        # (a value below the tol-dependent bound still reported as 0) is within the stated error
+                        if msg is None and bool(((exp == 0) & (z != 0)).any()):
                             msg = f'support differs: obs={z.tolist()} exp={exp.tolist()}'
                     else:
                         bound = 10 * amp_rel * run['tol']
